@@ -132,6 +132,16 @@ func runC05(c *core.Ctx) {
 			files, element, food, depthArgs = w.Files(), w.Basics[r.Intn(len(w.Basics))], string([]rune(w.Recipes[0])[:1]), nil
 			c.Count("general_worlds", 1)
 		}
+		if i%10 == 7 {
+			// both files malformed (at about the same place): which error is reported must not vary either
+			files = map[string]string{"food.yaml": files["food.yaml"], "log.yaml": files["log.yaml"]}
+			for _, f := range []string{"food.yaml", "log.yaml"} {
+				lines := strings.SplitAfter(files[f], "\n")
+				at := min(len(lines), 1+r.Intn(3))
+				files[f] = strings.Join(lines[:at], "") + "  broken line " + f + "\n" + strings.Join(lines[at:], "")
+			}
+			c.Count("worlds_with_both_files_malformed", 1)
+		}
 		srv.Write(files)
 		if altPool != nil {
 			altPool.Servers[wk].Write(files)
